@@ -45,6 +45,7 @@
 #define MAXFD 12
 #define MAXCL 3
 #define MAXSUB 2
+#define T_UDP VF_T_N // transports: the five of vfh plus udp (local to this harness)
 
 enum { H_SOCK, H_CTX, H_DIALER, H_LISTENER, H_PIPE, H_NKINDS };
 static const char *hkind_names[] = { "socket", "ctx", "dialer", "listener", "pipe" };
@@ -78,6 +79,10 @@ typedef struct rec {
 	_Atomic uint64_t t_cb;
 	struct closer *_Atomic on_cb; // close plan to run from inside this record's callback
 	bool             lost, is_trigger;
+	int              big;     // body size of a send (0: 4 bytes)
+	int              rearm;   // 0 never, 1 this record again, 2 the partner (request/reply ping-pong)
+	struct rec      *pair;
+	_Atomic int      rearms;
 	struct casectx  *cx;
 } rec;
 
@@ -103,8 +108,10 @@ typedef struct cact {
 // who issues the close calls: a harness thread, the completion callback of a
 // dedicated nng_sleep_aio (a library task thread), or the completion callback
 // of one of the case's own pending operations
-enum { CM_THREAD, CM_SLEEP_CB, CM_OP_CB };
-static const char *cm_names[] = { "thread", "sleep-aio-callback", "operation-callback" };
+// or a pipe-notify callback (ADD_POST: the endpoint's accept/connect completion on
+// a task thread; REM_POST: the reaper thread)
+enum { CM_THREAD, CM_SLEEP_CB, CM_OP_CB, CM_PIPE_ADD, CM_PIPE_REM };
+static const char *cm_names[] = { "thread", "sleep-aio-callback", "operation-callback", "pipe-ADD_POST", "pipe-REM_POST" };
 typedef struct closer {
 	pthread_t       th;
 	struct casectx *cx;
@@ -113,8 +120,20 @@ typedef struct closer {
 	int             mode;
 	nng_aio        *aio;      // CM_SLEEP_CB
 	struct rec     *trigger;  // CM_OP_CB
-	_Atomic int     claimed, done;
+	int             psock, pev; // CM_PIPE_*: socket index whose event runs the plan, 0 ADD_POST / 1 REM_POST
+	_Atomic int     claimed, done, cur;
 } closer;
+
+// traffic towards the victim while it is being closed: one thread per peer socket
+typedef struct pump {
+	pthread_t       th;
+	struct casectx *cx;
+	int             si, big;
+	vf_rng          rng;
+	bool            running;
+	long            sent, sent_win, sent_big_win, recvd;
+} pump;
+#define MAXCALLS 24
 
 typedef struct subm {
 	pthread_t       th;
@@ -167,6 +186,14 @@ typedef struct casectx {
 	char            unl[4][112];
 	int             nunl;
 	_Atomic int     go, stop;
+	_Atomic int     win; // 0 before the first close call began, 1 during the planned closes, 2 all of them returned
+	_Atomic int     ncalls;
+	uint64_t        call_t0[MAXCALLS], call_t1[MAXCALLS];
+	_Atomic long    ok_win_v, ok_win_peer;
+	bool            rearm;
+	pump            pm[2];
+	int             npm;
+	struct closer *_Atomic pplan[MAXS][2];
 	_Atomic int     rem_post, add_post;
 	int             stall_dials, stall_accepts;
 	char            dead_url[96];
@@ -327,6 +354,25 @@ chk(casectx *cx, int hi, const char *name, int dead0, int rv)
 	vf_class("call=%s/%s/%s", name, resname(rv), dead0 ? "dead" : "live-or-closing");
 }
 
+static void closer_run(struct closer *c, int from);
+static bool can_recv(const vf_proto *p);
+static bool can_send(const vf_proto *p);
+
+// May close plan c run inside a pipe event of socket si?  The callback must not
+// touch its own socket (documented: nng_pipe_notify; closing the endpoint whose
+// accept/connect completion is delivering the event would wait for that very
+// callback): of the event's socket only contexts and pipes are closed.
+static bool
+pplan_ok(casectx *cx, closer *c, int si, int ep)
+{
+	for (int i = 0; i < c->na; i++) {
+		cact *a = &c->a[i];
+		if ((a->kind == CA_SOCK || a->kind == CA_DIALER || a->kind == CA_LISTENER) && cx->h[a->hidx].owner == si) return false;
+	}
+	(void) ep;
+	return true;
+}
+
 static void
 pipe_cb(nng_pipe p, nng_pipe_ev ev, void *arg)
 {
@@ -335,20 +381,26 @@ pipe_cb(nng_pipe p, nng_pipe_ev ev, void *arg)
 		int      si;
 	} *a        = arg;
 	casectx *cx = a->cx;
-	if (ev == NNG_PIPE_EV_ADD_POST) {
-		int        ep = -1;
-		nng_dialer d  = nng_pipe_dialer(p);
+	int      ep = -1, ek = ev == NNG_PIPE_EV_ADD_POST ? 0 : 1;
+	if (ev != NNG_PIPE_EV_ADD_POST && ev != NNG_PIPE_EV_REM_POST) return;
+	if (ev == NNG_PIPE_EV_ADD_POST || atomic_load(&cx->pplan[a->si][ek]) != NULL) {
+		nng_dialer d = nng_pipe_dialer(p);
 		if (nng_dialer_id(d) > 0) {
 			ep = h_find(cx, H_DIALER, (uint32_t) nng_dialer_id(d));
 		} else {
 			nng_listener l = nng_pipe_listener(p);
 			if (nng_listener_id(l) > 0) ep = h_find(cx, H_LISTENER, (uint32_t) nng_listener_id(l));
 		}
+	}
+	if (ev == NNG_PIPE_EV_ADD_POST) {
 		h_add(cx, H_PIPE, (uint32_t) nng_pipe_id(p), a->si, ep);
 		atomic_fetch_add(&cx->add_post, 1);
-	} else if (ev == NNG_PIPE_EV_REM_POST) {
+	} else {
 		atomic_fetch_add(&cx->rem_post, 1);
 	}
+	// a close plan waiting for this socket's next event of this kind
+	closer *c = atomic_load(&cx->pplan[a->si][ek]);
+	if (c != NULL && pplan_ok(cx, c, a->si, ep) && atomic_compare_exchange_strong(&cx->pplan[a->si][ek], &c, NULL)) closer_run(c, ek == 0 ? CM_PIPE_ADD : CM_PIPE_REM);
 }
 
 // pipes of socket si from the statistics tree (no callbacks installed)
@@ -381,22 +433,63 @@ sock_of(casectx *cx, int hi)
 #define MK(T, hi) ((T){ .id = cx->h[hi].id })
 
 // ------------------------------------------------------------------ records
-static void closer_run(struct closer *c, int from);
+
+static void rec_submit(rec *r);
+static bool rec_idle(rec *r);
+
+static bool
+is_proto(const vf_proto *p, const char *name)
+{
+	return !strcmp(p->name, name);
+}
+
+// Can an operation of this kind on socket si (timeout tmo, -1 infinite) end with
+// rv?  The terminal results the documentation lists for the operation, under
+// the conditions this harness creates: nothing fails allocations, nobody
+// cancels a user operation (only the device), timeouts are infinite unless
+// tmo >= 0 (a survey bounds the receives of its surveyor socket).
+static bool
+result_possible(casectx *cx, int si, bool send, bool dial, int tmo, int rv)
+{
+	const vf_proto *p      = cx->sp[si];
+	bool            raw    = (si == 0 && (cx->device || cx->rawv)) || (si == 2 && cx->device);
+	bool            devown = cx->device && (si == 0 || si == 2);
+	if (rv == 0 || rv == NNG_ECLOSED) return true;
+	if (rv == NNG_ETIMEDOUT) return tmo >= 0 || dial /* negotiation timeout */ || (!send && is_proto(p, "surveyor"));
+	if (dial) {
+		return rv == NNG_ESTOPPED || rv == NNG_ECONNREFUSED || rv == NNG_ECONNABORTED || rv == NNG_ECONNRESET || rv == NNG_ECONNSHUT || rv == NNG_ENOENT || rv == NNG_EADDRINVAL ||
+		    rv == NNG_ESTATE || rv == NNG_EPROTO || rv == NNG_EUNREACHABLE || rv == NNG_EBUSY || rv == NNG_EPERM;
+	}
+	switch (rv) {
+	case NNG_ESTATE: return true;
+	case NNG_ECANCELED: // a newer request / survey / reply replaces the operation
+		return !raw && (is_proto(p, "req") || is_proto(p, "rep") || is_proto(p, "surveyor") || is_proto(p, "respondent"));
+	case NNG_ECONNRESET: return !send && is_proto(p, "req");
+	case NNG_EBUSY: return devown;
+	case NNG_ENOTSUP: return send ? !can_send(p) : !can_recv(p);
+	case NNG_EPROTO: return send && raw;
+	default: return false;
+	}
+}
 
 static void
 rec_cb(void *arg)
 {
 	rec     *r  = arg;
+	casectx *cx = r->cx;
 	int      rv = (int) nng_aio_result(r->aio);
 	nng_msg *m  = nng_aio_get_msg(r->aio);
 	// a completion must carry a result an operation of this kind can end
 	// with: never an internal error, an allocation failure (nothing is
 	// failing allocations here) or a code nng does not define; a receive
 	// that reports success must deliver a message
-	if (rv == NNG_EINTERNAL || rv == NNG_ENOMEM || rv == NNG_EINTR || rv == NNG_EBADTYPE || rv == NNG_EINVAL || !strcmp(resname(rv), "other")) {
+	bool possible = !(rv == NNG_EINTERNAL || rv == NNG_ENOMEM || rv == NNG_EINTR || rv == NNG_EBADTYPE || rv == NNG_EINVAL || !strcmp(resname(rv), "other"));
+	if (possible && r->op != OP_DEVICE) possible = result_possible(cx, cx->h[r->hidx].owner, r->op == OP_SOCK_SEND || r->op == OP_CTX_SEND, r->op == OP_DIAL_AIO, r->tmo, rv);
+	if (!possible) {
 		char key[128];
 		snprintf(key, sizeof(key), "C10/pending-result/%s/%s", op_names[r->op], resname(rv));
-		vf_violation(key, "%s completed with %s (%d)", op_names[r->op], resname(rv), rv);
+		vf_violation(key, "%s (timeout %d ms) on a %s%s socket completed with %s (%d), which no operation of this kind can end with here", op_names[r->op], r->tmo,
+		    cx->sp[cx->h[r->hidx].owner]->name, cx->h[r->hidx].owner == 0 && (cx->device || cx->rawv) ? "(raw)" : "", resname(rv), rv);
 	}
 	switch (r->op) {
 	case OP_SOCK_RECV:
@@ -429,11 +522,25 @@ rec_cb(void *arg)
 		}
 		vf_stat("calls_on_dead_handle_concurrent", 1);
 	}
-	vf_class("aio=%s/%s/%s", op_names[r->op], resname(rv), atomic_load(&r->dead_at_submit) ? "submitted-dead" : atomic_load(&r->pending_at_close) ? "pending-at-close" : "other");
+	vf_class("aio=%s/%s/%s", op_names[r->op], resname(rv), atomic_load(&r->dead_at_submit) ? "submitted-dead" : atomic_load(&r->pending_at_close) ? "pending-at-close" : atomic_load(&r->rearms) ? "resubmitted-in-callback" : "other");
+	if (r->big && atomic_load(&r->pending_at_close)) vf_class("aio=%s/%s/parked-behind-busy-pipe/%s", op_names[r->op], resname(rv), cx->sp[cx->h[r->hidx].owner]->name);
 	atomic_store(&r->last_rv, rv);
 	atomic_store(&r->t_cb, vf_now_ns());
+	// the data axis: an operation that succeeded while the planned closes ran
+	if (rv == 0 && r->op != OP_DEVICE && atomic_load(&cx->win) == 1) atomic_fetch_add(cx->h[r->hidx].owner == 0 ? &cx->ok_win_v : &cx->ok_win_peer, 1);
 	struct closer *c = atomic_exchange(&r->on_cb, NULL);
 	if (c != NULL) closer_run(c, CM_OP_CB);
+	// the application's receive / send loop: the callback starts the next
+	// operation (on whatever the handle has become) until one fails
+	if (rv == 0 && r->rearm && cx->rearm && atomic_load(&cx->go) && !atomic_load(&cx->stop) && atomic_load(&r->rearms) < (r->op == OP_SOCK_RECV || r->op == OP_CTX_RECV ? 200 : 24)) {
+		rec *nx = r->rearm == 2 ? r->pair : r;
+		// (the partner is started by this callback only, and only when its
+		// own callback has returned)
+		if (nx == r || (nx != NULL && rec_idle(nx))) {
+			atomic_fetch_add(&nx->rearms, 1);
+			rec_submit(nx);
+		}
+	}
 	atomic_fetch_add(&r->n_cb, 1);
 }
 
@@ -482,7 +589,7 @@ rec_submit(rec *r)
 		nng_ctx_recv(MK(nng_ctx, r->hidx), r->aio);
 		break;
 	case OP_CTX_SEND:
-		if (nng_msg_alloc(&m, 0) != 0) vf_harness_fail("msg alloc");
+		if (nng_msg_alloc(&m, (size_t) r->big) != 0) vf_harness_fail("msg alloc");
 		nng_msg_append_u32(m, 0xC10C11u);
 		nng_aio_set_msg(r->aio, m);
 		nng_ctx_send(MK(nng_ctx, r->hidx), r->aio);
@@ -555,6 +662,11 @@ blocker_thread(void *arg)
 		break;
 	}
 	vf_class("sync=%s/%s", b_names[b->op], resname(b->rv));
+	if (!result_possible(cx, cx->h[b->hidx].owner, b->op == B_SENDMSG || b->op == B_SEND_BUF, b->op == B_DIAL_SYNC, -1, b->rv)) {
+		char key[128];
+		snprintf(key, sizeof(key), "C10/pending-result/%s/%s", b_names[b->op], resname(b->rv));
+		vf_violation(key, "%s on a %s socket returned %s (%d), which no call of this kind can return here", b_names[b->op], cx->sp[cx->h[b->hidx].owner]->name, resname(b->rv), b->rv);
+	}
 	atomic_store(&b->done, 1);
 	return NULL;
 }
@@ -904,7 +1016,9 @@ do_close(casectx *cx, cact *a)
 {
 	hnd     *h     = (a->hidx >= 0 && a->kind != CA_DEVCANCEL && a->kind != CA_RAWFD) ? &cx->h[a->hidx] : NULL;
 	int      dead0 = h ? atomic_load(&h->dead) : 0;
-	int      rv    = 0;
+	int      rv    = 0, z = 0;
+	atomic_compare_exchange_strong(&cx->win, &z, 1);
+	int      ci    = atomic_fetch_add(&cx->ncalls, 1);
 	uint64_t t0    = vf_now_ns();
 	switch (a->kind) {
 	case CA_SOCK: rv = nng_socket_close(MK(nng_socket, a->hidx)); break;
@@ -924,6 +1038,10 @@ do_close(casectx *cx, cact *a)
 	}
 	a->ms = (double) (vf_now_ns() - t0) / 1e6;
 	a->rv = rv;
+	if (ci < MAXCALLS) {
+		cx->call_t0[ci] = t0;
+		cx->call_t1[ci] = vf_now_ns();
+	}
 	vf_stat("close_calls", 1);
 	vf_stat_max("max_close_call_ms", (long) a->ms);
 	if (h == NULL) return;
@@ -957,11 +1075,16 @@ closer_run(closer *c, int from)
 	for (int i = 0; i < c->na; i++) {
 		c->a[i].ctx_name = cm_names[from];
 		if (c->a[i].delay_us > 0) vf_usleep(c->a[i].delay_us);
+		atomic_store(&c->cur, i);
 		do_close(cx, &c->a[i]);
 	}
 	if (from != CM_THREAD) {
 		vf_stat("close_plans_run_in_callback", 1);
 		vf_stat("close_calls_from_callback", c->na);
+	}
+	if (from == CM_PIPE_ADD || from == CM_PIPE_REM) {
+		vf_stat("close_plans_run_in_pipe_callback", 1);
+		vf_stat("close_calls_from_pipe_callback", c->na);
 	}
 	atomic_store(&c->done, 1);
 }
@@ -1157,6 +1280,79 @@ submitter_thread(void *arg)
 	return NULL;
 }
 
+// ------------------------------------------------------------------ pumps
+// A peer socket (W; X behind a device) keeps sending towards the victim from
+// `go` to `stop`, so that transport receive completions, the protocols' pipe
+// receive callbacks and the hand-up into user aios / queues race the teardown.
+// One message in three is large (half received when the pipe closes).  REQ /
+// SURVEYOR peers also drain the answers; REP / RESPONDENT peers answer what
+// they receive.  The calls are judged like the submitters' (dead-handle form).
+static void
+pump_chk(casectx *cx, int sh, const char *name, int d0, int rv, unsigned *seen)
+{
+	unsigned bit = 1u << (rv == 0 ? 0 : rv == NNG_EAGAIN ? 1 : rv == NNG_ECLOSED ? 2 : rv == NNG_ESTATE ? 3 : 4);
+	if (d0 || rv == 0 || !(*seen & bit) || bit == 16) chk(cx, sh, name, d0, rv);
+	*seen |= bit;
+}
+
+static void *
+pump_thread(void *arg)
+{
+	pump           *pm = arg;
+	casectx        *cx = pm->cx;
+	nng_socket      s  = cx->s[pm->si];
+	int             sh = cx->sh[pm->si];
+	const vf_proto *q  = cx->sp[pm->si];
+	bool            echo = is_proto(q, "rep") || is_proto(q, "respondent");
+	bool            drain = is_proto(q, "req") || is_proto(q, "surveyor");
+	unsigned        seen_s = 0, seen_r = 0;
+	while (!atomic_load(&cx->go)) sched_yield();
+	while (!atomic_load(&cx->stop)) {
+		nng_msg *m  = NULL;
+		int      rv = NNG_EAGAIN, d0;
+		if (echo || drain) {
+			d0     = atomic_load(&cx->h[sh].dead);
+			int rr = nng_recvmsg(s, &m, NNG_FLAG_NONBLOCK);
+			if (rr == 0) {
+				nng_msg_free(m);
+				pm->recvd++;
+			}
+			pump_chk(cx, sh, "peer:nng_recvmsg", d0, rr, &seen_r);
+		}
+		bool   big = vf_chance(&pm->rng, 1, 3);
+		size_t n   = big ? (size_t) pm->big : (size_t) vf_range(&pm->rng, 4, 64);
+		if (nng_msg_alloc(&m, n) != 0) vf_harness_fail("msg alloc");
+		d0 = atomic_load(&cx->h[sh].dead);
+		int w = atomic_load(&cx->win);
+		rv = nng_sendmsg(s, m, NNG_FLAG_NONBLOCK);
+		if (rv != 0) nng_msg_free(m);
+		pump_chk(cx, sh, "peer:nng_sendmsg", d0, rv, &seen_s);
+		if (rv == 0) {
+			pm->sent++;
+			if (w == 1 && atomic_load(&cx->win) == 1) {
+				pm->sent_win++;
+				if (big) pm->sent_big_win++;
+			}
+		}
+		if (rv == NNG_ECLOSED) break;
+		if (rv != 0) vf_usleep((int) vf_range(&pm->rng, 10, 60));
+		else if (vf_chance(&pm->rng, 1, 4)) sched_yield();
+	}
+	return NULL;
+}
+
+static void
+pump_add(casectx *cx, int si, uint64_t seed)
+{
+	if (cx->npm >= 2 || !can_send(cx->sp[si])) return;
+	pump *pm = &cx->pm[cx->npm++];
+	memset(pm, 0, sizeof(*pm));
+	pm->cx  = cx;
+	pm->si  = si;
+	pm->big = cx->tran == T_UDP ? 8000 : 65536;
+	vf_rng_seed(&pm->rng, seed, 77 + (uint64_t) si);
+}
+
 // ------------------------------------------------------------------ scenario
 static int
 open_sock(casectx *cx, const vf_proto *p, bool raw)
@@ -1202,8 +1398,6 @@ wait_pipes_n(nng_socket s, int n, int ms)
 	return NNG_ETIMEDOUT;
 }
 
-// transports: the five of vfh plus udp (local to this harness)
-#define T_UDP VF_T_N
 static const char *
 tname(int t)
 {
@@ -1268,6 +1462,29 @@ raw_connect_url(const char *durl, int tran)
 	return c ? vf_tcp_connect((uint16_t) atoi(c + 1), 2000) : -1;
 }
 
+// like raw_connect_url, but a tcp client advertises a small receive window, so
+// that the sender's kernel buffers fill after little data
+static int
+raw_connect_small_rcvbuf(const char *durl, int tran)
+{
+	if (tran == VF_T_IPC) return vf_unix_connect(durl + 6, 2000);
+	const char *c = strrchr(durl, ':');
+	if (c == NULL) return -1;
+	struct sockaddr_in sin;
+	int                fd = socket(AF_INET, SOCK_STREAM | SOCK_CLOEXEC, 0), sz = 2048;
+	if (fd < 0) return -1;
+	setsockopt(fd, SOL_SOCKET, SO_RCVBUF, &sz, sizeof(sz));
+	memset(&sin, 0, sizeof(sin));
+	sin.sin_family      = AF_INET;
+	sin.sin_addr.s_addr = htonl(INADDR_LOOPBACK);
+	sin.sin_port        = htons((uint16_t) atoi(c + 1));
+	if (connect(fd, (struct sockaddr *) &sin, sizeof(sin)) != 0) {
+		close(fd);
+		return -1;
+	}
+	return fd;
+}
+
 static int
 pick_child(casectx *cx, vf_rng *r, int si, int *ca_kind)
 {
@@ -1318,6 +1535,16 @@ static const int teardown_sites[] = { NNI_VP_PIPE_REAP_BEFORE_STOP, NNI_VP_PIPE_
 
 static casectx *prev_cx[2];
 static int      cur_task_threads = 2;
+static int      pcb_other = 1; // mode pipecb: plans in pipe callbacks close endpoints of the other socket / the other socket
+#define PCB_CLOSE_MS 10000
+
+static void
+stat_mode_case(void)
+{
+	char k[48];
+	snprintf(k, sizeof(k), "cases/%s", vf_mode[0] ? vf_mode : "default");
+	vf_stat(k, 1);
+}
 static int      wd_secs = 30;
 
 // An operation that the library lost sits on a list of an object that has been
@@ -1401,6 +1628,18 @@ run_case(long idx, vf_rng *r)
 
 	pthread_mutex_init(&cx->hmtx, NULL);
 	cx->idx = idx;
+	// decisions of the later additions (traffic pumps, callback loops, plans
+	// in pipe callbacks, parked replies) come from a generator of their own
+	vf_rng x;
+	vf_rng_seed(&x, vf_seed, (uint64_t) idx | (1ULL << 40));
+	bool pump_on  = vf_chance(&x, 3, 4);
+	bool m_pipecb = !strcmp(vf_mode, "pipecb");
+	bool pcb_cand = m_pipecb || (!strcmp(vf_mode, "mixed") || !strcmp(vf_mode, "nolate") || !strcmp(vf_mode, "device") ? vf_chance(&x, 2, 5) : false);
+	bool rp_elem  = !m_expiry && !m_redial && vf_chance(&x, 2, 5);
+	cx->rearm     = !no_late_aio && vf_chance(&x, 1, 2);
+	// development knobs (not used by the check): switch the additions off
+	if (getenv("C10_NOPUMP")) pump_on = cx->rearm = false;
+	if (getenv("C10_NORP")) rp_elem = false;
 	const vf_proto *P = &vf_protos[vf_below(r, (uint32_t) vf_nprotos)];
 	if (m_redial && vf_chance(r, 2, 3)) P = vf_proto_by_name(vf_chance(r, 1, 2) ? "pair0" : "pair1");
 	const vf_proto *Q = vf_proto_by_name(P->peer_name);
@@ -1419,6 +1658,7 @@ run_case(long idx, vf_rng *r)
 	cx->rawv   = !cx->device && vf_chance(r, 1, 7);
 	if (getenv("C10_RAW")) cx->rawv = !cx->device;
 	cx->notify = vf_chance(r, 1, 2);
+	if (pcb_cand) cx->notify = true;
 	cx->expiry = m_expiry;
 	int tmo    = -1; // operations pending at close time never expire by themselves
 	int base_us = 0;
@@ -1612,31 +1852,57 @@ run_case(long idx, vf_rng *r)
 	bool cooked = !cx->device && !cx->rawv;
 	if (cooked && has_ctx(P)) nctx = (int) vf_below(r, 4);
 	int  ctxh[4];
+	rec *crv[4] = { NULL, NULL, NULL, NULL }, *csn[4] = { NULL, NULL, NULL, NULL };
 	bool sendfirst = !strcmp(P->name, "req") || !strcmp(P->name, "surveyor");
-	for (int i = 0; i < nctx; i++) {
+	bool replier   = !strcmp(P->name, "rep") || !strcmp(P->name, "respondent");
+	// the element "replies parked behind a busy pipe" (below) wants two or three contexts
+	int  nctx_rp   = rp_elem && cooked && replier ? (int) vf_range(&x, 2, 3) : 0;
+	for (int i = 0; i < nctx || i < nctx_rp; i++) {
 		nng_ctx c;
 		if ((rv = nng_ctx_open(&c, sv)) != 0) vf_harness_fail("ctx_open: %s", nng_strerror(rv));
 		ctxh[i] = h_add(cx, H_CTX, (uint32_t) nng_ctx_id(c), V, -1);
 		if (!strcmp(P->name, "sub")) nng_sub0_ctx_subscribe(c, "", 0);
 		rec *a = rec_new(cx, sendfirst ? OP_CTX_SEND : OP_CTX_RECV, ctxh[i], tmo, -1);
 		if (ctxh[i] >= 0) cx->h[ctxh[i]].role = sendfirst ? "ctx-request-outstanding" : "ctx-recv-pending";
+		if (a) a->rearm = 1;
 		if (a) rec_submit(a);
 		if (sendfirst && a) {
 			rec_wait(a, 100);
 			rec *b = rec_new(cx, OP_CTX_RECV, ctxh[i], tmo, -1);
+			if (b) {
+				// request, reply, next request ... from the callbacks
+				a->rearm = b->rearm = 2;
+				a->pair  = b;
+				b->pair  = a;
+			}
 			if (b && rec_idle(a)) rec_submit(b);
 		}
+		if (replier && a) {
+			// the context's reply record: started by the receive's callback
+			// (callback loops) or by the parked-replies element
+			rec *b = rec_new(cx, OP_CTX_SEND, ctxh[i], -1, -1);
+			if (b) {
+				a->rearm = b->rearm = 2;
+				a->pair  = b;
+				b->pair  = a;
+			}
+			crv[i] = a;
+			csn[i] = b;
+		}
 	}
+	int nctx_all = nctx > nctx_rp ? nctx : nctx_rp;
 	if (!cx->device) {
 		int nsend = can_send(P) ? (int) vf_below(r, 4) : vf_chance(r, 1, 8);
 		int nrecv = can_recv(P) ? (int) vf_below(r, 4) : vf_chance(r, 1, 8);
 		for (int i = 0; i < nsend; i++) {
 			rec *a = rec_new(cx, OP_SOCK_SEND, cx->sh[V], tmo, -1);
+			if (a) a->rearm = !sendfirst && !replier;
 			if (a) rec_submit(a);
 		}
 		if (nsend && sendfirst) vf_msleep(1);
 		for (int i = 0; i < nrecv; i++) {
 			rec *a = rec_new(cx, OP_SOCK_RECV, cx->sh[V], tmo, -1);
+			if (a) a->rearm = 1;
 			if (a) rec_submit(a);
 		}
 		int nblk = (int) vf_below(r, 3);
@@ -1647,14 +1913,58 @@ run_case(long idx, vf_rng *r)
 			else if (k == 2 && nctx > 0 && !sendfirst) blocker_add(cx, B_CTX_RECVMSG, ctxh[vf_below(r, (uint32_t) nctx)]);
 		}
 	}
+	// ---- replies parked behind a busy pipe: a raw peer speaks SP as REQ /
+	// SURVEYOR over tcp or ipc, sends requests and never reads; V's contexts
+	// answer with large bodies until a reply stays queued behind the pipe
+	// whose transport send cannot make progress
+	int rp_parked = 0;
+	if (nctx_rp > 0) {
+		int          t = vf_chance(&x, 1, 2) ? VF_T_IPC : VF_T_TCP, fd = -1, lh = -1;
+		char         rurl[128];
+		nng_listener l;
+		vf_url(t, url, sizeof(url));
+		if (nng_listener_create(&l, sv, url) == 0) {
+			lh = h_add(cx, H_LISTENER, (uint32_t) nng_listener_id(l), V, -1);
+			if (nng_listener_start(l, 0) == 0 && vf_dial_url(l, t, url, rurl, sizeof(rurl)) == 0) fd = raw_connect_small_rcvbuf(rurl, t);
+		}
+		if (fd >= 0 && vf_sp_handshake(fd, P->peer, NULL, 3000) == 0) {
+			for (int i = 0; i < 8; i++) {
+				uint8_t rq[16] = { 0x80, 0, 0, (uint8_t) (i + 1), 'c', '1', '0' };
+				vf_sp_send_frame(fd, t == VF_T_IPC, rq, sizeof(rq));
+			}
+			for (int round = 0; round < 3 && rp_parked < nctx_all; round++) {
+				for (int i = 0; i < nctx_all; i++) {
+					rec *rr = crv[i], *rs = csn[i];
+					if (rr == NULL || rs == NULL || !rec_idle(rs)) continue;
+					if (!rec_wait(rr, 40) || atomic_load(&rr->last_rv) != 0) continue; // no request for this context
+					rs->big = t == VF_T_IPC ? 256 * 1024 : 512 * 1024;
+					rec_submit(rs);
+					if (!rec_wait(rs, 25)) {
+						rp_parked++; // stays busy
+						if (ctxh[i] >= 0) cx->h[ctxh[i]].role = "ctx-reply-parked";
+					} else if (atomic_load(&rs->last_rv) == 0) rec_submit(rr); // handed to the pipe: next request
+				}
+			}
+		}
+		fd_keep(cx, fd);
+		if (lh >= 0 && rp_parked) cx->h[lh].role = "listener-with-parked-replies";
+		char k[64];
+		snprintf(k, sizeof(k), "ctx_replies_parked_at_close/%s", P->name);
+		vf_stat(k, rp_parked);
+		vf_stat("reply_parked_cases", 1);
+		vf_class("element=reply-parked/%s/%s/%d", P->name, tname(t), rp_parked);
+	}
+
 	// the peer: receivers, and messages queued towards V
 	int nwr = can_recv(Q) ? (int) vf_below(r, 3) : 0;
 	for (int i = 0; i < nwr; i++) {
 		rec *a = rec_new(cx, OP_SOCK_RECV, cx->sh[W], tmo, -1);
+		if (a) a->rearm = 1;
 		if (a) rec_submit(a);
 	}
 	if (cx->device && can_recv(P)) {
 		rec *a = rec_new(cx, OP_SOCK_RECV, cx->sh[X], tmo, -1);
+		if (a) a->rearm = 1;
 		if (a) rec_submit(a);
 	}
 	int queued = 0;
@@ -1734,6 +2044,38 @@ run_case(long idx, vf_rng *r)
 		}
 	}
 
+	// ---- one more plan, for a pipe-notify callback: issued from the next
+	// ADD_POST / REM_POST event of socket T (V or W; a pipe close by the
+	// harness causes the event).  Contexts and pipes of either socket; in mode
+	// pipecb also endpoints of the OTHER socket and that socket itself.  Never
+	// T or an endpoint of T (pplan_ok).
+	int     ncl0 = cx->ncl;
+	closer *pcb  = NULL;
+	if (pcb_cand && connected && cx->notify && cx->ncl < MAXCL) {
+		int t = cx->ncl, T = vf_chance(&x, 1, 2) ? V : W, O = T == V ? W : V, n = 1 + (int) vf_below(&x, 2), k1 = 0;
+		if (cx->device && vf_chance(&x, 1, 2)) T = vf_chance(&x, 1, 2) ? V2 : X;
+		for (int i = 0; i < n; i++) {
+			int hi = -1;
+			for (int k = 0; k < 6 && hi < 0; k++) {
+				hi = pick_child(cx, &x, vf_chance(&x, 2, 3) ? V : W, &k1);
+				if (hi >= 0 && k1 != CA_CTX && k1 != CA_PIPE) hi = -1;
+			}
+			if (!(m_pipecb && pcb_other && i == 0)) plan_add(cx, &x, t, k1, hi);
+		}
+		if (m_pipecb && pcb_other && !cx->device) {
+			// the other socket's endpoint, or the other socket
+			int hi = vf_chance(&x, 1, 3) ? -1 : h_pick(cx, &x, vf_chance(&x, 1, 2) ? H_DIALER : H_LISTENER, O);
+			if (hi < 0 && vf_chance(&x, 1, 2)) hi = h_pick(cx, &x, H_DIALER, O) >= 0 ? h_pick(cx, &x, H_DIALER, O) : h_pick(cx, &x, H_LISTENER, O);
+			if (hi >= 0) plan_add(cx, &x, t, cx->h[hi].kind == H_DIALER ? CA_DIALER : CA_LISTENER, hi);
+			else plan_add(cx, &x, t, CA_SOCK, cx->sh[O]);
+		}
+		if (cx->ncl > t) {
+			pcb        = &cx->cl[t];
+			pcb->psock = T;
+			pcb->pev   = vf_chance(&x, 1, 2);
+		}
+	}
+
 	int pending = 0;
 	for (int i = 0; i < cx->nr; i++) {
 		if (!rec_idle(&cx->r[i])) {
@@ -1755,7 +2097,7 @@ run_case(long idx, vf_rng *r)
 	// well): as many blocking calls as there are task threads is a deadlock
 	// by construction, not a finding.  Keep one thread free.
 	int cb_budget = cur_task_threads - 1 - (cx->device ? 1 : 0);
-	for (int t = 0; t < cx->ncl; t++) {
+	for (int t = 0; t < ncl0; t++) {
 		closer *c = &cx->cl[t];
 		c->cx     = cx;
 		c->mode   = CM_THREAD;
@@ -1788,12 +2130,26 @@ run_case(long idx, vf_rng *r)
 		}
 		if (c->mode == CM_THREAD) cb_budget++;
 	}
+	if (pcb != NULL) {
+		// ADD_POST runs on a task thread (the endpoint's completion callback):
+		// without a spare one the plan waits for REM_POST (the reaper thread)
+		if (pcb->pev == 0 && cb_budget <= 0) pcb->pev = 1;
+		pcb->cx   = cx;
+		pcb->mode = pcb->pev == 0 ? CM_PIPE_ADD : CM_PIPE_REM;
+	}
 	for (int t = 0; t < cx->ncl; t++) {
 		closer *c = &cx->cl[t];
 		if (c->mode == CM_THREAD && pthread_create(&c->th, NULL, closer_thread, c) != 0) vf_harness_fail("pthread_create");
 	}
 	for (int k = 0; k < cx->nsub; k++) {
 		if (pthread_create(&cx->sub[k].th, NULL, submitter_thread, &cx->sub[k]) != 0) vf_harness_fail("pthread_create");
+	}
+	if (pump_on && connected) {
+		pump_add(cx, W, vf_rand(&x));
+		if (cx->device) pump_add(cx, X, vf_rand(&x));
+	}
+	for (int k = 0; k < cx->npm; k++) {
+		if (pthread_create(&cx->pm[k].th, NULL, pump_thread, &cx->pm[k]) != 0) vf_harness_fail("pthread_create");
 	}
 	atomic_store(&cx->go, 1);
 	bool any_opcb = false;
@@ -1805,11 +2161,55 @@ run_case(long idx, vf_rng *r)
 			any_opcb = true;
 		}
 	}
+	if (pcb != NULL) {
+		// arm the plan, then make an event happen: close one pipe of that
+		// socket (REM_POST there and at the peer; a dialer reconnects: ADD_POST)
+		atomic_store(&cx->pplan[pcb->psock][pcb->pev], pcb);
+		int hi = h_pick(cx, &x, H_PIPE, pcb->psock);
+		if (hi >= 0) {
+			cact trig = { .kind = CA_PIPE, .hidx = hi, .ctx_name = cm_names[CM_THREAD] };
+			do_close(cx, &trig);
+			vf_stat("pipe_closes_to_cause_a_pipe_event", 1);
+		}
+	}
 	if (any_opcb && connected && can_send(Q)) {
 		// give the designated operation a chance to complete by itself
 		for (int i = 0; i < 2; i++) {
 			nng_msg *m = mkmsg();
 			if (nng_sendmsg(sw, m, NNG_FLAG_NONBLOCK) != 0) nng_msg_free(m);
+		}
+	}
+	if (pcb != NULL) {
+		closer *c = pcb;
+		// the event may never come (nothing reconnects; the socket was
+		// closed first), or only for the endpoint the plan closes
+		for (int k = 0; k < (c->pev == 0 ? 400 : 150) && !atomic_load(&c->claimed); k++) vf_usleep(100);
+		if (atomic_exchange(&cx->pplan[c->psock][c->pev], NULL) != NULL) {
+			closer_run(c, CM_THREAD);
+			vf_stat("pipe_callback_plans_fallback_to_thread", 1);
+		}
+		// The close calls are running inside the pipe callback, that is
+		// with whatever the library holds while it delivers pipe events,
+		// and for REM_POST on the reaper thread.  They concern other
+		// objects than the event's socket and have to return.
+		uint64_t end = vf_now_ns() + (uint64_t) PCB_CLOSE_MS * 1000000ULL;
+		while (!atomic_load(&c->done) && vf_now_ns() < end) vf_usleep(200);
+		if (!atomic_load(&c->done)) {
+			cact *a = &c->a[atomic_load(&c->cur)];
+			char  key[160];
+			bool  other = a->hidx >= 0 && cx->h[a->hidx].owner != c->psock;
+			snprintf(key, sizeof(key), "C10/close-never-returns/%s/in-pipe-callback/%s/%s", ca_names[a->kind], c->pev == 0 ? "ADD_POST" : "REM_POST", other ? "object-of-another-socket" : "object-of-the-event-socket");
+			vf_violation(key, "%s (of a %s of %s) called from the %s callback of a pipe of socket %s has not returned after %d ms", ca_names[a->kind],
+			    a->hidx >= 0 ? hkind_names[cx->h[a->hidx].kind] : "-", other ? "another socket" : "the same socket", c->pev == 0 ? "NNG_PIPE_EV_ADD_POST" : "NNG_PIPE_EV_REM_POST",
+			    cx->sp[c->psock]->name, PCB_CLOSE_MS);
+			fflush(NULL);
+			snprintf(key, sizeof(key), "gdb -q -batch -p %d -ex 'thread apply all bt 22' 2>&1 | grep -v '^\\[New\\|^Reading\\|^warning' | head -700 >&2", (int) getpid());
+			if (system(key) != 0) fprintf(stderr, "(no stacks)\n");
+			// the library thread that delivers pipe events / reaps is
+			// stuck for good: nothing else can be judged in this process
+			// (the driver resumes with the next case)
+			fflush(NULL);
+			abort();
 		}
 	}
 	for (int t = 0; t < cx->ncl; t++) {
@@ -1833,12 +2233,41 @@ run_case(long idx, vf_rng *r)
 		if (c->aio != NULL) nng_aio_free(c->aio);
 	}
 	// every close call has returned
+	atomic_store(&cx->win, 2);
 	vf_usleep((int) vf_range(r, 200, 1500));
 	atomic_store(&cx->stop, 1);
 	for (int k = 0; k < cx->nsub; k++) {
 		pthread_join(cx->sub[k].th, NULL);
 		vf_stat("submitter_calls", cx->sub[k].calls);
 		vf_stat("submitter_calls_after_close", cx->sub[k].post_close_calls);
+	}
+	for (int k = 0; k < cx->npm; k++) {
+		pump *pm = &cx->pm[k];
+		pthread_join(pm->th, NULL);
+		vf_stat("peer_messages_sent_by_pumps", pm->sent);
+		vf_stat("peer_messages_sent_during_close_window", pm->sent_win);
+		vf_stat("peer_large_messages_sent_during_close_window", pm->sent_big_win);
+		vf_stat("peer_messages_drained_by_pumps", pm->recvd);
+		if (pm->sent_win) vf_stat("cases_with_traffic_towards_victim_during_close", 1);
+	}
+	vf_stat("victim_ops_completed_ok_during_close_window", atomic_load(&cx->ok_win_v));
+	vf_stat("peer_ops_completed_ok_during_close_window", atomic_load(&cx->ok_win_peer));
+	if (atomic_load(&cx->ok_win_v)) vf_class("data-axis/%s/%s/%s", P->name, tname(cx->tran), cx->device ? "device" : cx->rawv ? "raw" : "cooked");
+	{
+		// timeouts that really fell next to a close call (mode expiry)
+		int nc = atomic_load(&cx->ncalls);
+		if (nc > MAXCALLS) nc = MAXCALLS;
+		for (int i = 0; i < cx->nr; i++) {
+			rec     *rc = &cx->r[i];
+			uint64_t tc = atomic_load(&rc->t_cb);
+			if (atomic_load(&rc->last_rv) != NNG_ETIMEDOUT || tc == 0 || !rec_idle(rc)) continue;
+			for (int k = 0; k < nc; k++) {
+				if (tc + 2000000ULL >= cx->call_t0[k] && tc <= cx->call_t1[k] + 2000000ULL) {
+					vf_stat("expiries_within_2ms_of_a_close_call", 1);
+					break;
+				}
+			}
+		}
 	}
 	if (cx->fk.running) {
 		pthread_join(cx->fk.th, NULL);
@@ -1913,6 +2342,7 @@ run_case(long idx, vf_rng *r)
 	vf_stat("handles_tracked", atomic_load(&cx->nh));
 	if (cx->notify) vf_stat("pipe_rem_post_events", atomic_load(&cx->rem_post));
 	vf_stat("cases", 1);
+	stat_mode_case();
 	if (cx->tran == T_UDP && connected) vf_stat("cases_connected_over_udp", 1);
 	if (cx->tran == VF_T_SOCKFD && connected) vf_stat("cases_connected_over_sockfd", 1);
 	vf_class("case=%s%s/%s/shape%d", P->name, cx->device ? "(device)" : cx->rawv ? "(raw)" : "", tname(cx->tran), shape);
@@ -2123,6 +2553,7 @@ run_parked_case(long idx, vf_rng *r)
 		nng_socket_close(sw);
 		if (nkept < 512) kept[nkept++] = cx;
 		vf_stat("cases", 1);
+		stat_mode_case();
 		vf_watchdog(wd_secs);
 		return;
 	}
@@ -2154,6 +2585,7 @@ run_parked_case(long idx, vf_rng *r)
 	}
 	vf_pt_off();
 	vf_stat("cases", 1);
+	stat_mode_case();
 	vf_stat("close_calls", 1);
 	if (cx->keep) {
 		if (nkept < 512) kept[nkept++] = cx;
@@ -2195,6 +2627,10 @@ main(int argc, char **argv)
 	if (vf_from > 0) vf_stat("processes_restarted_after_a_death", 1);
 	vf_stat("processes_started", 1);
 	if (getenv("C10_WD")) wd_secs = atoi(getenv("C10_WD"));
+	if (getenv("C10_PCB_OTHER")) pcb_other = atoi(getenv("C10_PCB_OTHER"));
+	// a worker that was restarted after a death does not try these again (on a
+	// tree where they hang every attempt ends the process)
+	if (vf_from > 0) pcb_other = 0;
 	vf_watchdog(wd_secs);
 	for (long i = 0; i < vf_cases; i++) {
 		if (!vf_want_case(i)) continue;
